@@ -23,6 +23,9 @@ Proof. intros []; reflexivity. Qed.
 Lemma wg_add_first : goroutine_wg_add_before_go = true.
 Proof. reflexivity. Qed.
 
+Lemma worker_ok : worker_runs_execute_with_retries && worker_selects_done_and_dispatch = true.
+Proof. reflexivity. Qed.
+
 (* ---- worker lists ---- *)
 Lemma busy_le_length : forall ws, (busy ws <= length ws)%nat.
 Proof. unfold busy. induction ws as [|w t IH]; cbn; [lia|]. destruct (is_busy w); cbn; lia. Qed.
@@ -81,7 +84,7 @@ Proof.
   all: try (injection Hs as <-; difin; fail).
   all: try (destruct (d_lpc s) eqn:Epc; try discriminate; destruct (d_due s); [discriminate|]; injection Hs as <-; difin; fail).
   all: try (destruct (d_lpc s) eqn:Epc; try discriminate; rewrite Hm in Hs; injection Hs as <-; rewrite ?wg_add_first; difin; fail).
-  all: try (destruct (d_lpc s) eqn:Epc; try discriminate; destruct (nth i (d_workers s) WDead) eqn:En; try discriminate; injection Hs as <-;
+  all: try (destruct (d_lpc s) eqn:Epc; try discriminate; destruct (nth i (d_workers s) WDead) eqn:En; try discriminate; rewrite worker_ok in Hs; injection Hs as <-;
             unfold DI; cbn [d_crashed d_inflight d_lpc d_workers d_running d_wg d_spawned d_due]; rewrite (busy_upd_take _ _ En), length_upd; difin; fail).
   all: try (destruct (nth i (d_workers s) WDead) eqn:En; try discriminate; rewrite survives_all in Hs; injection Hs as <-;
             unfold DI; cbn [d_crashed d_inflight d_lpc d_workers d_running d_wg d_spawned d_due]; rewrite length_upd;
@@ -127,7 +130,7 @@ Proof.
   - cbn [fill_from drun]. unfold dstep at 1. cbn [d_crashed d_lpc d_due Nat.add].
     cbn [d_workers d_spawned d_running d_inflight d_wg].
     unfold dstep at 1. cbn [d_crashed d_lpc]. rewrite Hm. cbn [d_due d_workers d_spawned d_running d_inflight d_wg].
-    unfold dstep at 1. cbn [d_crashed d_lpc d_workers]. rewrite nth_app_repeat. cbn [d_due d_spawned d_running d_inflight d_wg].
+    unfold dstep at 1. cbn [d_crashed d_lpc d_workers]. rewrite nth_app_repeat, worker_ok. cbn [d_due d_spawned d_running d_inflight d_wg].
     rewrite upd_app_repeat. rewrite (IH (S i) sp ru (S inf) wg extra).
     replace (S i + m)%nat with (i + S m)%nat by lia. replace (m + S inf)%nat with (S (m + inf)) by lia. reflexivity.
 Qed.
